@@ -327,7 +327,7 @@ PROPS = {
                 decisive={'affinity': 'Esc.P.C14_pod: the model filter is equivalent to the documented pod attribution rule',
                           'default': 'Esc.P.C14_default: the model filter is equivalent to the documented default-group rule',
                           'match': 'Esc.P.C14_node: the model filter is equivalent to the documented node rule'},
-                theorems=['Esc.P.C14_pod', 'Esc.P.C14_default', 'Esc.P.C14_node', 'Esc.P.C14_static', 'Esc.P.C14_required_terms', 'Esc.P.C14_view'],
+                theorems=['Esc.P.C14_pod', 'Esc.P.C14_default', 'Esc.P.C14_node', 'Esc.P.C14_static', 'Esc.P.C14_required_terms', 'Esc.P.C14_view', 'Esc.P.gen_podDefaultFilter_eq', 'Esc.P.C14_source_default', 'Esc.P.gen_nodeLabelFilter_eq', 'Esc.P.gen_podAffinityFilter_eq', 'Esc.P.C14_source_affinity', 'Esc.P.gen_filters_translation_complete'],
                 technique='Lean 4 theorem (filter <-> documented rule, for all pods/nodes) + exhaustive small-scope differential correspondence with the real filter functions',
                 level_text='C14_pod / C14_default / C14_node: the three filters are equivalent to the documented attribution rules for every pod and node; C14_view: a group\'s view is exactly the filtered lists. '
                            'Tie: filters stream enumerates exhaustively the small-scope universe (7 selectors x ~190 affinity shapes x 5 owner sets x 4 annotation sets = 141,820 pods, 9 label maps) through the real filter functions; at controller level, after every scan of the multi-group histories the harness asks each group\'s own lister objects what they return and the driver compares that with viewOf (names of pods and nodes): a disagreement names the mis-attributed pod or node.',
@@ -394,6 +394,7 @@ GLOBAL_ASPECTS = {'outcome'}
 
 # Round 3: what the regenerated ties (Tie B, DESIGN.md section 0 "Round 3") add to each claim. Appended to the level text.
 SOURCE_NOTES = {
+    'C14': 'Tie B (node_group.go, the three filter constructors as translated): gen_podDefaultFilter_eq / C14_source_default, gen_nodeLabelFilter_eq, gen_podAffinityFilter_eq / C14_source_affinity (the skeleton; the loop over the affinity terms is recognised by its text as the pinned one).',
     'C07': 'Tie B (scale_up.go ScaleUp, as translated with its two callees as parameters): C07_source_remainder — scaleUpCloudProviderNodeGroup is called iff untainting reported no error and left a positive remainder, and is handed exactly want - untainted; gen_scaleUp_remainder_eq: that is the remainder the model computes.',
     'C18': 'Tie B (scale_up.go ScaleUp): C18_source_lock_only_on_success — the cool-down lock is taken iff the cloud was asked and reported no error, with the number it reported; on an error ScaleUp returns it and takes no lock.',
     'C01': 'Tie B (regenerated from scale_down.go and taint.go on every run): gen_reaperCands_eq / gen_forceCands_eq — the loop bodies of the two reapers, as translated from the source, select exactly the model\'s candidates; C01_source_reaper: a candidate is handed on only if unprotected, its time readable, not dry, age > soft and (empty or age > hard); gen_taintTime_eq / C01_source_taint_time: a time is returned only for a parsable value within the years 1-9999.',
